@@ -109,6 +109,14 @@ CHECKS.update({
          "DESIGN.md §4 C13"),
 })
 
+CHECKS.update({
+ "C08": ("E3-process",
+         "exhaustive enumeration of model programs x source/reference splits x argument lists through the real slicec binary with a capturing generator; independent schema decoder; expected request computed from the model",
+         "Every construct alone in 4 module scopes x 4 splits x 4 argument lists, all ordered construct pairs, all 40 constructs packed into one file, three-file programs in every source/reference assignment and order, every @param/@returns documentation shape and every value extreme: the bytes received by the generator must end with its own arguments, the rest must decode completely according to slice/Compiler with an independently written decoder, and the decoded request (numeric type ids inlined, constrained to earlier anonymous symbols of the same file) must equal the request computed from the model; named ids must exist in transmitted files.",
+         "trusted: the decoder and the expected-request builder in mc/src/props/c08.rs; variants are decoded as varint discriminant + payload + tag end marker, as the hand-written encoder and DESIGN §8 establish; message components are compared after concatenation",
+         "DESIGN.md §4 C08"),
+})
+
 NOT_YET = {}
 
 def main():
